@@ -387,6 +387,82 @@ package server
 //@     invariant !latestOnly ==> (forall j int :: pos0 <= j && j < nextPos ==> has(emitted, j))
 
 // ---------------------------------------------------------------------------
+// C01: the listing of a dataset visits the latest-version pointers of the dataset in key order, emits the entity each
+// pointer names exactly once, and hands out the key of the last pointer visited as the token; a later page resumes right
+// after that key. (The iterator prefix is the 10-byte buffer {class 8, dataset id, 0,0,0,0}: only pointers of entities
+// with internal id below 2^32 are listed; the contract states exactly that.)
+
+// decoded view of a continuation token (a base64 string): length of the decoded bytes and, for 14-byte keys, the fields
+//@ spec tokOK(s string) bool
+//@ spec tokLen(s string) int
+//@ spec tokCl(s string) int
+//@ spec tokDs(s string) int
+//@ spec tokRid(s string) int
+// ASSUMED: encoding/base64 round trip (DecodeString(EncodeToString(b)) == b), stated on the fields of 14-byte keys
+//@ assumed (*base64.Encoding).EncodeToString
+//@   pure
+//@   ensures result != "" || len(src) == 0
+//@   ensures tokOK(result) && tokLen(result) == len(src)
+//@   ensures len(src) >= 14 ==> tokCl(result) == encBE16(src, 0) && tokDs(result) == encBE32(src, 2) && tokRid(result) == encBE64(src, 6)
+//@ assumed (*base64.Encoding).DecodeString
+//@   pure
+//@   ensures foreign(ret0)
+//@   ensures tokOK(s) ==> ret1 == nil && len(ret0) == tokLen(s)
+//@   ensures tokOK(s) && tokLen(s) >= 14 ==> encBE16(ret0, 0) == tokCl(s) && encBE32(ret0, 2) == tokDs(s) && encBE64(ret0, 6) == tokRid(s)
+
+//@ unit (*Dataset).MapEntitiesRaw
+//@   prop C01
+//@   ghost txnG int
+//@   ghost seekPos int
+//@   ghost pos0 int
+//@   ghost cur int
+//@   ghost nextPos int
+//@   ghost emitted intset = emptyset()
+//@   requires ds != nil && ds.store != nil
+//@   requires [token-came-from-an-earlier-page-of-this-dataset] from != "" ==> tokOK(from) && tokLen(from) == 14 && tokCl(from) == 8 && tokDs(from) == ds.InternalID
+//@   dyncall processEntity pure
+//@   ensures [first-page-starts-at-the-first-pointer-of-the-dataset] ret1 == nil && from == "" ==> pos0 == seekPos && (forall i int :: 0 <= i && i < seekPos ==> kcl(K(txnG, i)) < 8 || (kcl(K(txnG, i)) == 8 && k64at2(K(txnG, i)) < ds.InternalID * 4294967296))
+//@   ensures [later-page-resumes-right-after-the-token-key] ret1 == nil && from != "" ==> pos0 == seekPos + 1 && (forall i int :: 0 <= i && i < seekPos ==> kcl(K(txnG, i)) < 8 || (kcl(K(txnG, i)) == 8 && (kf32(K(txnG, i)) < ds.InternalID || (kf32(K(txnG, i)) == ds.InternalID && kseq(K(txnG, i)) < tokRid(from))))) && (seekPos < N(txnG) ==> kcl(K(txnG, seekPos)) > 8 || (kcl(K(txnG, seekPos)) == 8 && (kf32(K(txnG, seekPos)) > ds.InternalID || (kf32(K(txnG, seekPos)) == ds.InternalID && kseq(K(txnG, seekPos)) >= tokRid(from)))))
+//@   ensures [visited-are-latest-pointers-of-this-dataset] ret1 == nil ==> (forall j int :: pos0 <= j && j < nextPos ==> 0 <= j && j < N(txnG) && kcl(K(txnG, j)) == 8 && k64at2(K(txnG, j)) == ds.InternalID * 4294967296)
+//@   ensures [every-visited-pointer-is-emitted] ret1 == nil ==> (forall j int :: pos0 <= j && j < nextPos ==> has(emitted, j))
+//@   ensures [emitted-only-visited] ret1 == nil ==> (forall j int :: has(emitted, j) ==> pos0 <= j && j < nextPos)
+//@   ensures [page-holds-at-most-count] ret1 == nil && count > 0 ==> nextPos - pos0 <= count
+//@   ensures [stops-only-when-exhausted-or-the-page-is-full] ret1 == nil ==> (count > 0 && nextPos - pos0 == count) || nextPos < 0 || nextPos >= N(txnG) || !(kcl(K(txnG, nextPos)) == 8 && k64at2(K(txnG, nextPos)) == ds.InternalID * 4294967296)
+//@   ensures [token-names-the-last-visited-pointer] ret1 == nil && nextPos > pos0 ==> tokOK(ret0) && tokLen(ret0) == 14 && tokCl(ret0) == 8 && tokDs(ret0) == kf32(K(txnG, nextPos - 1)) && tokRid(ret0) == kseq(K(txnG, nextPos - 1))
+//@   ensures [token-unchanged-when-nothing-visited] ret1 == nil && nextPos == pos0 ==> ret0 == from
+//@   safe slice index
+//@   at $1 call PutUint32#1
+//@     assume encBE64(searchBufferPrefix, 2) == ds.InternalID * 4294967296
+//@   at $1 call NewIterator#1
+//@     ghost txnG := txn
+//@   at $1 call Seek#1
+//@     ghost seekPos := $itPos[entityIterator]
+//@     ghost pos0 := $itPos[entityIterator]
+//@     ghost nextPos := $itPos[entityIterator]
+//@   at $1 call Next#1
+//@     ghost pos0 := $itPos[entityIterator]
+//@     ghost nextPos := $itPos[entityIterator]
+//@   at $1 call Item#1
+//@     ghost cur := $itPos[entityIterator]
+//@   at $1$1 call Get#1 before
+//@     assert [entity-read-through-the-latest-pointer] key == val
+//@   at $1$1$1 call processEntity#1 before
+//@     assert [emitted-once] !has(emitted, cur)
+//@     ghost emitted := add(emitted, cur)
+//@   at $1 call Value#1
+//@     ghost nextPos := cur + 1
+//@   loop $1:1
+//@     invariant pos0 <= $itPos[entityIterator] && nextPos == $itPos[entityIterator]
+//@     invariant $itTxn[entityIterator] == txnG && !has($itRev, entityIterator) && $itPlen[entityIterator] == 10 && $itPcl[entityIterator] == 8 && $itP64[entityIterator] == ds.InternalID * 4294967296
+//@     invariant encBE16(searchBufferPrefix, 0) == 8 && encBE64(searchBufferPrefix, 2) == ds.InternalID * 4294967296 && len(searchBufferPrefix) == 10
+//@     invariant taken == nextPos - pos0 && (count > 0 ==> taken < count)
+//@     invariant forall j int :: pos0 <= j && j < nextPos ==> 0 <= j && j < N(txnG) && kcl(K(txnG, j)) == 8 && k64at2(K(txnG, j)) == ds.InternalID * 4294967296
+//@     invariant forall j int :: pos0 <= j && j < nextPos ==> has(emitted, j)
+//@     invariant forall j int :: has(emitted, j) ==> pos0 <= j && j < nextPos
+//@     invariant nextPos > pos0 ==> tokOK(lastKeyAsContinuationToken) && tokLen(lastKeyAsContinuationToken) == 14 && tokCl(lastKeyAsContinuationToken) == 8 && tokDs(lastKeyAsContinuationToken) == kf32(K(txnG, nextPos - 1)) && tokRid(lastKeyAsContinuationToken) == kseq(K(txnG, nextPos - 1))
+//@     invariant nextPos == pos0 ==> lastKeyAsContinuationToken == from
+
+// ---------------------------------------------------------------------------
 // C01 / C02: content equality used by the write-time duplicate detection
 
 //@ spec norm(v iface) iface
